@@ -31,7 +31,7 @@ RULE = (
 )
 P_FORMS = {"cells": ["triangle", "quadrilateral", "tetrahedron", "hexahedron"], "measures": ["dS"], "arities": [0, 0, 1], "max_integrals": 2,
            "depth": 1, "maxdeg": 2, "max_qdeg": 4, "min_qdeg": 2, "manifold": 0.0, "nonaffine": 0.0, "affine_only": True, "ncoef": (1, 3),
-           "element_tags": ["P", "DG", "vecP", "vecDG"], "coef_element_tags": [["N1curl", 1], ["RT", 1], ["BDM", 1], ["N2curl", 1]], "geo": ["x", "n"], "p_scheme": 0.0, "p_vertex": 0.0, "ids": "few", "p_multiterm": 0.0,
+           "element_tags": ["P", "DG", "vecP", "vecDG"], "coef_element_tags": [["N1curl", 1], ["RT", 1], ["BDM", 1], ["N2curl", 1]], "geo": ["x", "n"], "p_scheme": 0.3, "p_vertex": 0.0, "ids": "few", "p_multiterm": 0.0,
            "nconst": (0, 1)}
 NCODES = {"triangle": 2, "quadrilateral": 2, "tetrahedron": 6, "hexahedron": 8}
 
@@ -422,8 +422,18 @@ def shard(shard, nshards, n, max_pairs, seed):
         npairs[0] += getattr(o, "npairs", 0)
         return o
 
+    def symmetric_rules_only(spec):
+        # invariance under renumbering is exact only if the facet rule is mapped onto itself (with its weights) by the facet's
+        # symmetries: true for the default rules, for GLL/Gauss-Jacobi on intervals and (tensor rules) on quadrilaterals, not for
+        # the collapsed Gauss-Jacobi rule on triangles - there another numbering is another, equally valid, quadrature
+        if spec["cell"] == "tetrahedron":
+            for I in spec["integrals"]:
+                I["md"].pop("quadrature_rule", None)
+        return spec
+
     with scratch(f"vf-c03-{shard}-") as wd:
-        drive(st.one_of(strategies.form_specs(P_FORMS), strategies.form_specs(P_FORMS), flag_family()), ev, n, (PROP, seed, shard), res, shrink_calls=20)
+        drive(st.one_of(strategies.form_specs(P_FORMS), strategies.form_specs(P_FORMS), flag_family()).map(symmetric_rules_only), ev, n, (PROP, seed, shard), res,
+              shrink_calls=20)
     res.nontrivial.update(extra)
     res.evaluations += npairs[0]
     res.counters["numbering-pairs-evaluated"] = npairs[0]
